@@ -33,7 +33,8 @@ def main(tier: str, seed: int) -> int:
              "of L_3 classified S2-eq/S2-neq by an independently computed evidence model, plus "
              "EVERY non-empty subset of the executions of small fork definitions (3-branch OR, "
              "AND of XORs, XOR over OR, two ORs, OR in a loop; sampled where > 127/1100); each "
-             "S1 set under 2 presentations/uuid schedules. distinct = distinct (definition "
+             "S1 set under 2 presentations/uuid schedules; a subset through the real command line "
+             "and a subset supplied over two runs with a saved model in between. distinct = distinct (definition "
              "normal form, stratum, k, size); trivial = definitions without fork or loop")
     chk.assumptions = [
         "janus stand-in /verif/shim builds the same event graph from a PV job as the real package",
@@ -62,6 +63,52 @@ def main(tier: str, seed: int) -> int:
                  for i, c in enumerate(pool[:ncli])]
     lcheck.run(chk, cli_cases, ASPECTS, hashseeds=hs, label="command_line_subset",
                worker=("vlib.present", "run_cli_learn_case"))
+    # evidence supplied over two runs: first batch learned and saved (-om), the model loaded
+    # again (-im) with the second batch - every job of BOTH batches served as evidence
+    from vlib import puml
+    pool2 = [c for c in cases if c["stratum"] == "S1" and c["kind"] in ("core-exh", "core-rand")
+             and 2 <= len(c["jobs"]) <= 12 and c.get("variant") == "base"]
+    rng.shuffle(pool2)
+    hcases = []
+    for i, c in enumerate(pool2[:30 if tier == "quick" else 300]):
+        order = list(range(len(c["jobs"])))
+        rng.shuffle(order)
+        cut = rng.randint(1, len(order) - 1)
+        hcases.append({"name": ("wf " + c["name"]) if i % 2 else c["name"], "kind": c["kind"],
+                       "src": c["src"], "tags": c["tags"], "jobs": c["jobs"],
+                       "split": [order[:cut], order[cut:]], "uuid_seed": f"{seed}-mu-{i}",
+                       "rng_seed": f"{seed}-mu-{i}", "work_dir": wd, "cap": 600})
+    hres, hnotes = core.run_workers("vlib.present", "run_history_case", hcases, hashseeds=hs,
+                                    chunks_per_proc=4, timeout=3000)
+    for n in hnotes:
+        chk.note_inconclusive(n)
+    mu = {"histories": 0, "final_diagrams_matched_against_all_jobs": 0, "jobs_matched": 0,
+          "names_with_space": 0}
+    for r in hres:
+        c = hcases[r["_idx"]]
+        if r.get("status") != "ok":
+            chk.note_inconclusive(f"model update {c['name']}: {r.get('status')} {r.get('detail')}")
+            continue
+        mu["histories"] += 1
+        mu["names_with_space"] += " " in c["name"]
+        chk.case(core.digest(["mu", repr(puml.normal_form(c["src"])), r["chunks"]]), True)
+        if "final_rejects" in r:
+            mu["final_diagrams_matched_against_all_jobs"] += 1
+            mu["jobs_matched"] += len(c["jobs"]) - len(r["final_rejects"])
+            if r["final_rejects"]:
+                chk.violation("rejects-input:after-model-update",
+                              {"kind": "model-update", "case": {k: c[k] for k in c if k != "work_dir"},
+                               "hashseed": r.get("_hashseed"), "rejected": r["final_rejects"],
+                               "learned": r.get("final_text")}, c["tags"] + ["model-update"])
+        elif r.get("one_ok") and not r.get("final_ok"):
+            chk.violation("exception:model-update-run-fails",
+                          {"kind": "model-update", "case": {k: c[k] for k in c if k != "work_dir"},
+                           "hashseed": r.get("_hashseed"),
+                           "detail": [s for s in r.get("steps", []) if not s["ok"]][:1]},
+                          c["tags"] + ["model-update"])
+    chk.extra["evidence_over_two_runs"] = mu
+    if mu["final_diagrams_matched_against_all_jobs"] == 0:
+        chk.note_inconclusive("no model-update history produced a diagram to match")
     if not chk.extra.get("command_line_subset", {}).get("jobs_matched"):
         chk.note_inconclusive("no job set went through the command line")
     if chk.extra.get("jobs_matched", 0) == 0:
@@ -73,4 +120,19 @@ def main(tier: str, seed: int) -> int:
 
 
 def replay(path: str) -> int:
+    import json
+    with open(path) as fh:
+        data = json.load(fh)
+    w = data["case"]
+    if w.get("kind") == "model-update":
+        c = dict(w["case"], work_dir=core.work_dir())
+        res, _ = core.run_workers("vlib.present", "run_history_case", [c], nproc=1,
+                                  hashseeds=[w.get("hashseed") or 0])
+        for r in res:
+            print(r.get("final_text") or r.get("steps"))
+            if r.get("final_rejects") or (r.get("one_ok") and not r.get("final_ok")):
+                print("rejected jobs:", r.get("final_rejects"))
+                print(f"VIOLATION property={PROP} replay={path}")
+                return 1
+        return 0 if res else 2
     return lcheck.replay_case(PROP, path, ASPECTS)
